@@ -210,6 +210,8 @@ func (it *Interp) Apply(op *Op) {
 		return
 	case "probe":
 		it.opProbe(op)
+	case "register":
+		it.opRegister(op)
 	case "batchCall":
 		// Filter.Batch(rel...) is called and the Batch discarded (a filter used for batches earlier and for queries later)
 		f := it.M.Filters[op.F]
@@ -1811,6 +1813,9 @@ func (it *Interp) freshWorld(b *Backend, withFilters bool) {
 	nb := NewBackend(b.Name, b.Cfg, b.Pol)
 	nb.Trace = b.Trace
 	nb.saved = b.saved
+	for i := 0; i < it.M.Extra; i++ {
+		ecs.TypeID(nb.W, fillerType(nb.Cfg.Filler+i))
+	}
 	*b = *nb
 	for j := range it.M.Obs {
 		it.makeObs(b, j)
@@ -1913,4 +1918,39 @@ func (it *Interp) opDumpLoad(op *Op) {
 	}
 	it.M.Resources = map[int]int64{}
 	it.count("dump-load")
+}
+
+// opRegister registers one more component type. On a locked world (or beyond the documented maximum) this must panic
+// without consuming an ID or disturbing the registered types.
+func (it *Interp) opRegister(op *Op) {
+	total := it.B[0].Cfg.Filler + comps.N + it.M.Extra
+	valid := !it.locked() && total < MaskBits
+	it.run(op, valid, func(b *Backend) {
+		id := ecs.TypeID(b.W, fillerType(b.Cfg.Filler+it.M.Extra))
+		if int(id.Index()) != total {
+			fail("registry|register|id", "%s step %d: component type number %d got ID %d", b.Name, it.Step, total+1, id.Index())
+		}
+	})
+	if valid {
+		it.M.Extra++
+	}
+	for _, b := range it.B {
+		if n := len(ecs.ComponentIDs(b.W)); n != b.Cfg.Filler+comps.N+it.M.Extra {
+			fail("registry|register|count", "%s step %d: %d component IDs registered, expected %d", b.Name, it.Step, n, b.Cfg.Filler+comps.N+it.M.Extra)
+		}
+		b.checkRegistry(it.Step)
+	}
+}
+
+// checkRegistry verifies that the universe types keep their IDs and relation flags.
+func (b *Backend) checkRegistry(step int) {
+	for c := 0; c < comps.N; c++ {
+		info, ok := ecs.ComponentInfo(b.W, b.IDs[c])
+		if !ok || info.Type != comps.All[c].Type || info.IsRelation != comps.All[c].Relation {
+			fail("registry|info|changed", "%s step %d: ComponentInfo(%s) = %+v, %v", b.Name, step, comps.All[c].Name, info, ok)
+		}
+		if id := comps.Register(b.W, c); id != b.IDs[c] {
+			fail("registry|id|changed", "%s step %d: type %s now maps to ID %d (was %d)", b.Name, step, comps.All[c].Name, id.Index(), b.IDs[c].Index())
+		}
+	}
 }
